@@ -592,10 +592,13 @@ def correspondence(ctx, harness_bin, model_bin, key_fn=None, tier=None, what_fn=
     with open(cases_p, "w") as f:
         f.write("\n".join(cases) + ("\n" if cases else ""))
     t = time.time()
-    rc, out = sh([harness_bin, "run", "-in", cases_p, "-out", obs_p] + list(extra_run_args), timeout=run_timeout, env=goenv())
+    # the quick tier's cases take about a minute; ten minutes without an end means the implementation hangs on them
+    rt = min(run_timeout, 600) if tier == "quick" else run_timeout
+    rc, out = sh([harness_bin, "run", "-in", cases_p, "-out", obs_p] + list(extra_run_args), timeout=rt, env=goenv())
     ctx.log("implementation run (%s): %d cases rc=%d %.1fs" % (sfx, len(cases), rc, time.time() - t))
     if rc != 0:
         ctx.keep_work = True
+        ctx.harness_dead = True  # no point in widening the search: the implementation cannot be driven
         ctx.broken("harness run failed (rc=%d): the implementation could not be driven on the generated cases" % rc,
                    "\n".join(out.strip().split("\n")[-60:]))
         return None
@@ -694,7 +697,8 @@ def standard(ctx, harness, extracted, driver_dir, rule, key_fn=None, what_fn=Non
         st = correspondence(ctx, h, m, key_fn=key_fn, what_fn=what_fn, run_timeout=run_timeout)
         if st:
             cov.update(st)
-        if escalate and ctx.brokens and not ctx.violations and ctx.quick() and not ctx.replay:
+        if escalate and ctx.brokens and not ctx.violations and ctx.quick() and not ctx.replay \
+                and not getattr(ctx, "harness_dead", False):
             # a proof, bridge or the correspondence no longer checks: widen the search for a concrete failing input
             st2 = correspondence(ctx, h, m, key_fn=key_fn, what_fn=what_fn, tier="thorough", label="escalated", run_timeout=run_timeout)
             if st2:
